@@ -490,7 +490,7 @@ func c34() {
 	}
 	r.Sample(map[string]any{"handshake": "both", "damage": damage{Dir: "s2c", Kind: "flip", At: 14, Xor: 1}, "meaning": "last byte of the server's patch version flipped on its way to the client"})
 	r.Sample(map[string]any{"handshake": "both", "damage": damage{Dir: "c2s", Kind: "truncate", At: 3}, "meaning": "the server receives the client's magic number and then EOF"})
-	r.Note("exhaustive", true)
+	r.Note("exhaustive", !r.Quick()) // every byte index in both tiers; every xor value only in thorough
 	r.Note("expected_server_to_client", hexs(expectedStream("both", specServerMagic)))
 	r.Note("expected_client_to_server", hexs(expectedStream("both", specClientMagic)))
 	r.Assume("a half that returns (nil or error) closes its stream, as pkg/agent/dial.go and the agent process do; a cut direction delivers EOF to the receiver while the sender's writes are swallowed")
